@@ -96,7 +96,7 @@ OBLIGATIONS = [
         outside=_OUT_ENC + "; larger files in the one-step obligations interrupted_state + helper_upload_caps + direct_upload_caps"),
     chx("checker_decision", "C44_h", "h_checker_decision", timeout=T,
         cases={"quick": [{"P": 2, "S": 2, "N": n, "_label": "2servers,2shares,N=%d" % n} for n in (1, 2, 3)]
-                        + [{"P": 3, "S": 2, "N": 2, "_label": "3servers,2shares,N=2"}, {"P": 2, "S": 3, "N": 3, "_label": "2servers,3shares,N=3"}],
+                        + [{"P": 2, "S": 3, "N": 3, "_label": "2servers,3shares,N=3"}],
                "thorough": [{"P": 3, "S": 2, "N": n, "_label": "3servers,2shares,N=%d" % n} for n in (1, 2, 3)]
                            + [{"P": 2, "S": 3, "N": n, "_label": "2servers,3shares,N=%d" % n} for n in (2, 3, 4)]
                            + [{"P": 3, "S": 3, "N": 3, "_label": "3servers,3shares,N=3"}]},
@@ -107,14 +107,20 @@ OBLIGATIONS = [
         outside="share header parsing (ReadBucketProxy stand-in); a UEB that fails on the one share tried makes the file count as absent even if other shares are "
                 "intact (documented in the code: 'If we get an error, declare the whole file unavailable'; errs on the side of uploading)"),
     chx("helper_decision", "C44_h", "h_helper_decision", timeout=T,
-        cases={"quick": [{"S": 2, "N": n, "_label": "2shares,N=%d" % n} for n in (1, 2, 3)],
-               "thorough": [{"S": 3, "N": n, "_label": "3shares,N=%d" % n} for n in (1, 2, 3, 4)]},
+        cases={"quick": [{"S": 2, "N": n, "_label": "2shares,N=%d" % n} for n in (1, 2)],
+               "thorough": [{"S": 2, "N": 3, "_label": "2shares,N=3"}] + [{"S": 3, "N": n, "_label": "3shares,N=%d" % n} for n in (1, 2, 3, 4)]},
         desc="Helper.remote_upload_chk/_check_chk/_did_chk_check/_make_chk_upload_helper with the real checker, two clients asking about the same storage index one "
              "after the other or concurrently (second request before the servers answered the first), symbolic grid contents, an upload of this / of another storage "
              "index possibly running: file completely in the grid => (results with the UEB hash/data found, sharemap, pushed_shares 0; no upload helper), nothing "
              "created, no file touched; otherwise (None, upload helper) and all clients of one storage index share ONE upload helper, registered as active; "
              "a running upload is re-used without asking the grid; other storage indexes untouched; counters",
         outside="more than two clients / two servers"),
+    chx("present_flow", "C44_h", "h_present_flow", timeout=T,
+        cases={"quick": [{"N": n, "_label": "N=%d" % n} for n in (1, 2)], "thorough": [{"N": n, "_label": "N=%d" % n} for n in (1, 2, 3)]},
+        desc="whole flow with the real checker: Uploader.upload -> AssistedUploader -> Helper.remote_upload_chk over a symbolic grid (2 servers x 2 share numbers, "
+             "symbolic UEB-read outcome): file completely in the grid => caps (key | SI, hash of the UEB found there, k, N, size) and NOTHING is fetched, read, "
+             "encrypted, encoded or written on the helper; otherwise exactly one upload happens and the caps carry that encoding's UEB hash",
+        outside="the UEB found is not compared with the client's file beyond k, N, segment size and size (see client_cap_fields)"),
     chx("client_cap_fields", "C44_h", "h_client_cap_fields", timeout=T,
         desc="AssistedUploader.start/_contacted_helper/_build_verifycap against a scripted helper (already-present answer or upload helper), symbolic own "
              "(size,k,N,segsize) and symbolic UEB data in the helper's results: results agreeing with the client's own values are accepted and the verify cap is "
@@ -125,7 +131,7 @@ OBLIGATIONS = [
                 "pre-1.3.0 helper result conversion"),
     chx("two_clients", "C44_h", "h_two_clients", timeout=T,
         cases={"quick": [{"nf": nf, "adie": a, "tmin": lo, "tmax": hi, "late": 0, "_label": _tc_label(nf, a, lo, hi)}
-                         for nf in (1, 2) for a in range(-1, 3 + nf) for (lo, hi) in ((0, 3), (4, 6 + nf))],
+                         for (nf, deaths) in ((1, (-1, 0, 1, 2, 3)), (2, (-1, 2))) for a in deaths for (lo, hi) in ((0, 3), (4, 6 + nf))],
                "thorough": [{"nf": nf, "adie": a, "tmin": lo, "tmax": hi, "late": 0, "_label": _tc_label(nf, a, lo, hi)}
                             for nf in (1, 2, 3) for a in range(-1, 3 + nf) for (lo, hi) in ((0, 3), (4, 6), (7, 6 + nf))]},
         desc="message schedules: every remote call queued and delivered FIFO one per step; client B starts uploading the same file before any delivery step; client A's "
